@@ -29,7 +29,7 @@ var ckCrashPoints = map[string][][2]string{
 }
 
 var ckBigShapes = []string{"random", "chain", "comb", "dense", "mixed", "random", "mixed", "tiny"}
-var ckBigScheds = []string{"inorder", "reverse", "perm-dups", "concurrent", "abort-same", "abort-other", "corrupt", "forged-other", "concurrent-dups", "abort-done-same"}
+var ckBigScheds = []string{"inorder", "reverse", "perm-dups", "concurrent", "abort-same", "abort-other", "corrupt", "forged-other", "concurrent-dups", "abort-done-same", "stale-commit"}
 var ckBigThreads = []int{0, 1, 2, 3, 4, 8, 16, 32}
 var ckBigSizes = []uint64{1, 7, 33, 100, 333, 1000, 5000, 20000, 1 << 20, 1 << 40}
 
@@ -222,6 +222,17 @@ func ckBigSteps(b *ckBigSpec, n int) []ckStep {
 			all(some())
 		}
 		st = append(st, ckStep{A: "abort"}, ckStep{A: "start", V: v2})
+		all(perm())
+		st = append(st, ckStep{A: "finalize", V: v2})
+	case "stale-commit":
+		// a caller has made its chunk durable and has not yet returned to the restorer when the restore is aborted and started
+		// again - for the same checkpoint (the restarted restore must not count the old caller's chunk) or for the other one
+		v2 := 1 + r.Intn(2)
+		p := perm()
+		k := r.Intn(n)
+		st = append(st, ckStep{A: "start", V: 1})
+		all(p[:k])
+		st = append(st, ckStep{A: "gate", I: p[k], Kind: "post"}, ckStep{A: "abort"}, ckStep{A: "start", V: v2}, ckStep{A: "release"})
 		all(perm())
 		st = append(st, ckStep{A: "finalize", V: v2})
 	case "corrupt":
